@@ -18,7 +18,8 @@ def register(CHECKS, H):
                                  "-Wno-deprecated-declarations"]})
     for sc in ("tree", "tree_link", "expansion", "matrix", "chain", "boundary", "zigzag", "mixed"):
         q.append({"unit": "c15_threads", "args": ["--scenario", sc, "--threads", "2", "--bound", "1", "--budget", "120"]})
-        t.append({"unit": "c15_threads", "args": ["--scenario", sc, "--threads", "2", "--bound", "2", "--budget", "1500"], "timeout": 2400})
+        # 2 preemptions everywhere except the chain scenario (660 scheduling points: ~200k schedules), kept at 1
+        t.append({"unit": "c15_threads", "args": ["--scenario", sc, "--threads", "2", "--bound", "1" if sc == "chain" else "2", "--budget", "1500"], "timeout": 2400})
         q.append({"unit": "c15_tsan", "args": ["--scenario", sc, "--threads", "3", "--reps", "20"], "cores": 3})
         t.append({"unit": "c15_tsan", "args": ["--scenario", sc, "--threads", "3", "--reps", "300"], "cores": 3})
     t.append({"unit": "c15_threads", "args": ["--scenario", "mixed", "--threads", "3", "--bound", "1", "--budget", "1500"], "timeout": 2400})
